@@ -31,6 +31,30 @@ def rule_a(ctx):
                           {"op": s.op, "value": v})
     if n == 0:
         raise AnchorLost("no write to the closed flag")
+    # ... and an instance starts out open
+    from .util import adt_constructions
+    nc = 0
+    for i in F.inst:
+        if i.body is None or not i.local or i.crate != "signal_hook":
+            continue
+        for (bb, si, rv) in adt_constructions(i, DS):
+            if "closed" not in rv["fields"]:
+                continue
+            nc += 1
+            fl = flow(i)
+            vals = []
+            for e in fl.operand(rv["ops"][rv["fields"].index("closed")], (bb, si)):
+                e = deep_strip(e)
+                if e[0] == "call" and re.search(r"atomic::Atomic::<bool>::new$", i.term(e[1]).get("def") or ""):
+                    vals += [fold(a) for a in fl.term_arg(e[1], 0)]
+                elif e[0] == "call" and (i.term(e[1]).get("def") or "").endswith("::default"):
+                    vals.append(0)
+                else:
+                    vals.append(show(e)[:80])
+            ctx.check(bool(vals) and all(v == 0 for v in vals), rid, "closed-starts-false@%s" % keyname(i.name), "a new instance starts with `closed` = false", rv.get("sp") or i.span,
+                      {"initial": vals})
+    if nc == 0:
+        raise AnchorLost("construction of the delivery state (initial value of the closed flag)")
 
 
 def rule_b(ctx):
